@@ -122,11 +122,19 @@ func (c *Ctx) ledgerSequence(i int, rng *rand.Rand) {
 	A, B := open(dirA), open(dirB)
 	m := newLedgerModel()
 	nk := 2 + rng.Intn(5)
+	wide := i%97 == 5 // a large key population in one process lifetime (long-lived caches)
+	if wide {
+		nk = 17000 + rng.Intn(4000)
+	}
 	keys := make([]ledger.LedgerKey, nk)
 	for k := range keys {
 		rng.Read(keys[k][:])
 	}
 	nops := 200 + rng.Intn(c.N(400, 1800))
+	if wide {
+		nops = 3 * nk
+		c.Count("wide-key-population-sequences", 1)
+	}
 	var trace []string
 	seq := 0
 	bad := func(sig, msg string) {
@@ -147,6 +155,9 @@ func (c *Ctx) ledgerSequence(i int, rng *rand.Rand) {
 	kname := func(k ledger.LedgerKey) string { return fmt.Sprintf("k%x", k[:2]) }
 	for op := 0; op < nops; op++ {
 		k := keys[rng.Intn(nk)]
+		if wide && rng.Intn(2) == 0 {
+			k = keys[rng.Intn(5)]
+		}
 		c.Eval(1)
 		switch r := rng.Intn(100); {
 		case r < 14: // SetFinality
@@ -280,6 +291,9 @@ func (c *Ctx) ledgerSequence(i int, rng *rand.Rand) {
 				return
 			}
 		case r < 78: // iterate committed items
+			if wide && rng.Intn(150) != 0 {
+				continue
+			}
 			trace = append(trace, "Iterate")
 			got := map[ledger.LedgerKey]string{}
 			var order []ledger.LedgerKey
@@ -299,6 +313,9 @@ func (c *Ctx) ledgerSequence(i int, rng *rand.Rand) {
 				}
 			}
 		case r < 90: // Commit
+			if wide && rng.Intn(40) != 0 {
+				continue
+			}
 			trace = append(trace, "Commit")
 			hA, vA, xerr := A.Commit()
 			hB, vB, xerrB := B.Commit()
@@ -331,6 +348,9 @@ func (c *Ctx) ledgerSequence(i int, rng *rand.Rand) {
 				if len(m.history) > 6 && rng.Intn(3) != 0 {
 					continue
 				}
+				if wide && (v < len(m.history)-1 || rng.Intn(40) != 0) {
+					continue
+				}
 				im, xerr := A.ImmutableLedgerAt(int64(v), 0)
 				if xerr != nil {
 					bad("historical-open", fmt.Sprintf("ImmutableLedgerAt(%d): %v", v, xerr))
@@ -342,7 +362,10 @@ func (c *Ctx) ledgerSequence(i int, rng *rand.Rand) {
 					bad("historical-read", fmt.Sprintf("version %d reads %s, committed was %s (now at version %d)", v, mapStr(got), mapStr(m.history[v-1]), len(m.history)))
 					return
 				}
-				for _, kk := range keys {
+				for ki, kk := range keys {
+					if wide && ki%97 != 0 {
+						continue
+					}
 					it, xerr := im.Read(kk)
 					want, ok := m.history[v-1][kk]
 					if ok != (xerr == nil) || (ok && it.V != want) {
@@ -353,7 +376,7 @@ func (c *Ctx) ledgerSequence(i int, rng *rand.Rand) {
 				c.Count("historical-reads", 1)
 			}
 		default: // close + reopen (uncommitted overlays are lost)
-			if rng.Intn(4) != 0 {
+			if rng.Intn(4) != 0 || (wide && rng.Intn(500) != 0) {
 				continue
 			}
 			trace = append(trace, "Reopen")
@@ -370,7 +393,10 @@ func (c *Ctx) ledgerSequence(i int, rng *rand.Rand) {
 				bad("reopen-version", fmt.Sprintf("after reopen Version()=%d, expected %d", A.Version(), len(m.history)))
 				return
 			}
-			for _, kk := range keys {
+			for ki, kk := range keys {
+				if wide && ki%97 != 0 {
+					continue
+				}
 				it, xerr := A.GetFinality(kk)
 				want, ok := m.committed[kk]
 				if ok != (xerr == nil) || (ok && it.V != want) {
